@@ -15,11 +15,13 @@ Ok(e) == LET x == Expected(e.cfg) IN
          /\ e.obs.names = x.names
          /\ e.obs.tokens = Flat(e.cfg.n, x.order, e.cfg.t)
          /\ e.obs.nested = (x.rep \in {"ns", "na"})            \* nestedness predicates
+         /\ e.obs.tl = x.tl                                    \* time labels kept / numbered anew
 Clause(e) == LET x == Expected(e.cfg) IN
     IF e.obs.shape # <<e.cfg.n, Len(e.cfg.names), e.cfg.t>> THEN "ShapePreserved"
     ELSE IF e.obs.tokens # Flat(e.cfg.n, x.order, e.cfg.t) THEN "ValuesAndOrderPreserved"
     ELSE IF e.obs.names # x.names THEN "NamesPreservedWhenCarried"
-    ELSE IF e.obs.nested # (x.rep \in {"ns", "na"}) THEN "NestednessPredicates" ELSE "Representation"
+    ELSE IF e.obs.nested # (x.rep \in {"ns", "na"}) THEN "NestednessPredicates"
+    ELSE IF e.obs.tl # x.tl THEN "TimeLabelsKeptWhenCarried" ELSE "Representation"
 Verdict(e) == IF Ok(e) THEN TRUE ELSE PrintT(<<"REJECT", e.tid, Clause(e)>>)
 TNext == \/ l <= Len(Trace) /\ Verdict(Trace[l]) /\ l' = l + 1
          \/ l = Len(Trace) + 1 /\ PrintT(<<"DONE", Len(Trace)>>) /\ l' = l + 1
